@@ -3,21 +3,23 @@
 package rules
 
 // C06 driver: random histories of rule-set creations / updates / deletions over
-// 1..3 sources on the REAL repository (newRepository, AddRuleSet / UpdateRuleSet /
-// DeleteRuleSet, FindRule; real ruleImpl / routeImpl with SameAs / EqualTo /
-// Routes and the real methodMatcher as the routes' conditions; the real radix
-// tree underneath).  After every prefix of the history a probe set of requests is
+// 1..3 sources through the REAL rule-set processor (NewRuleSetProcessor: OnCreated /
+// OnUpdated / OnDeleted with config.RuleSet values) into the REAL repository
+// (newRepository, AddRuleSet / UpdateRuleSet / DeleteRuleSet, FindRule; real
+// ruleImpl / routeImpl with SameAs / EqualTo / Routes and the real methodMatcher
+// as the routes' conditions; the real radix tree underneath).  The rule factory
+// is a stub that turns a config.Rule into a ruleImpl (id, source, routes,
+// methods, backtracking flag, hash = the real config.Rule.Hash()).  After every prefix of the history a probe set of requests is
 // looked up (a) in the repository that went through the history and (b) in a
 // real repository freshly loaded with the rule sets accepted so far.
 //
 // Observation per prefix: outcome of the operation (ok / error kind / panic), the
 // label of the rule found for every probe in (a) and in (b), and whether the
 // fresh load succeeded.  A label stands for one (source, rule definition); the
-// rule hash is the SHA-256 of the full canonical definition.
+// rule hash is config.Rule.Hash(), the SHA-256 of the JSON of the whole rule.
 
 import (
 	"context"
-	"crypto/sha256"
 	"encoding/json"
 	"errors"
 	"fmt"
@@ -28,7 +30,9 @@ import (
 	"strings"
 	"testing"
 
+	"github.com/dadrus/heimdall/internal/config"
 	"github.com/dadrus/heimdall/internal/heimdall"
+	config2 "github.com/dadrus/heimdall/internal/rules/config"
 	"github.com/dadrus/heimdall/internal/rules/rule"
 	"github.com/dadrus/heimdall/internal/x/radixtree"
 	"github.com/dadrus/heimdall/internal/zzverif/vf"
@@ -46,9 +50,14 @@ type c06Def struct {
 }
 
 type c06Op struct {
-	Kind string   `json:"kind"` // add upd del
+	Kind string   `json:"kind"` // add upd del refused
 	Src  int      `json:"src"`
 	Defs []c06Def `json:"defs,omitempty"`
+	// refused: a creation ("add") or update ("upd") which the rule-set processor does not hand
+	// to the repository: unsupported version ("version") or the factory fails on rule number FailAt ("factory")
+	Via    string `json:"via,omitempty"`
+	Fail   string `json:"fail,omitempty"`
+	FailAt int    `json:"fail_at,omitempty"`
 }
 
 type c06Probe struct {
@@ -62,7 +71,7 @@ type c06Case struct {
 }
 
 type c06Step struct {
-	Res     int   `json:"res"` // 0 ok 1 invalid path 2 constraint 3 delete failed 4 panic 5 other error
+	Res     int   `json:"res"` // 0 ok 1 invalid path 2 constraint 3 delete failed 4 panic 5 other error 6 refused by the processor
 	Hist    []int `json:"hist"`
 	FreshOK bool  `json:"fresh_ok"`
 	Fresh   []int `json:"fresh"`
@@ -105,40 +114,93 @@ func (c *c06Ctx) SetPipelineError(_ error)        {}
 func (c *c06Ctx) Outputs() map[string]any         { return nil }
 
 type c06World struct {
-	repo   rule.Repository
-	labels map[*ruleImpl]int
+	repo    rule.Repository
+	proc    rule.SetProcessor
+	factory *c06Factory
+	labels  map[*ruleImpl]int
+}
+
+// c06Factory is the rule factory behind the processor: it turns the rule
+// configuration into a ruleImpl; the label comes from the definition the
+// configuration was made from.
+type c06Factory struct {
+	world   *c06World
+	pending []c06Def
+	next    int
+	failAt  int
+}
+
+var errC06Factory = errors.New("rule cannot be created")
+
+func (f *c06Factory) DefaultRule() rule.Rule { return nil }
+func (f *c06Factory) HasDefaultRule() bool   { return false }
+
+func (f *c06Factory) CreateRule(_, srcID string, rc config2.Rule) (rule.Rule, error) {
+	i := f.next
+	f.next++
+
+	if i == f.failAt {
+		return nil, errC06Factory
+	}
+
+	hash, err := rc.Hash()
+	if err != nil {
+		return nil, err
+	}
+
+	r := &ruleImpl{id: rc.ID, srcID: srcID, hash: hash}
+	if rc.Matcher.BacktrackingEnabled != nil {
+		r.allowsBacktracking = *rc.Matcher.BacktrackingEnabled
+	}
+
+	mm := methodMatcher(rc.Matcher.Methods)
+	for _, rt := range rc.Matcher.Routes {
+		r.routes = append(r.routes, &routeImpl{rule: r, path: rt.Path, matcher: mm})
+	}
+
+	if i < len(f.pending) {
+		f.world.labels[r] = f.pending[i].UID
+	}
+
+	return r, nil
 }
 
 func c06NewWorld() *c06World {
-	return &c06World{repo: newRepository(&ruleFactory{}), labels: map[*ruleImpl]int{}}
+	w := &c06World{labels: map[*ruleImpl]int{}}
+	w.factory = &c06Factory{world: w, failAt: -1}
+	w.repo = newRepository(w.factory)
+	w.proc = NewRuleSetProcessor(w.repo, w.factory)
+
+	return w
 }
 
-func (w *c06World) build(src int, defs []c06Def) []rule.Rule {
-	out := make([]rule.Rule, 0, len(defs))
+func (w *c06World) ruleSet(src int, defs []c06Def, version string) *config2.RuleSet {
+	rs := &config2.RuleSet{
+		MetaData: config2.MetaData{Source: fmt.Sprintf("s%d", src)},
+		Version:  version,
+		Name:     "generated",
+	}
 
 	for _, d := range defs {
-		h := sha256.Sum256([]byte(d.canonical()))
-		r := &ruleImpl{
-			id:                 fmt.Sprintf("r%d", d.ID),
-			srcID:              fmt.Sprintf("s%d", src),
-			hash:               h[:],
-			allowsBacktracking: d.BT,
+		bt := d.BT
+		rc := config2.Rule{
+			ID:      fmt.Sprintf("r%d", d.ID),
+			Execute: []config.MechanismConfig{{"authenticator": fmt.Sprintf("a%d", d.Body)}},
 		}
+		rc.Matcher.BacktrackingEnabled = &bt
 
-		mm := make(methodMatcher, 0, len(d.Meth))
 		for _, m := range d.Meth {
-			mm = append(mm, c06Methods[m%len(c06Methods)])
+			rc.Matcher.Methods = append(rc.Matcher.Methods, c06Methods[m%len(c06Methods)])
 		}
 
 		for _, p := range d.Paths {
-			r.routes = append(r.routes, &routeImpl{rule: r, path: p, matcher: mm})
+			rc.Matcher.Routes = append(rc.Matcher.Routes, config2.Route{Path: p})
 		}
 
-		w.labels[r] = d.UID
-		out = append(out, r)
+		rs.Rules = append(rs.Rules, rc)
 	}
 
-	return out
+	return rs
 }
 
 func c06ErrCode(err error, panicked bool) int {
@@ -153,6 +215,8 @@ func c06ErrCode(err error, panicked bool) int {
 		return 2
 	case errors.Is(err, radixtree.ErrFailedToDelete):
 		return 3
+	case errors.Is(err, ErrUnsupportedRuleSetVersion), errors.Is(err, errC06Factory):
+		return 6
 	default:
 		return 5
 	}
@@ -167,15 +231,26 @@ func (w *c06World) apply(op c06Op) (code int) {
 		}
 	}()
 
-	src := fmt.Sprintf("s%d", op.Src)
+	kind, version := op.Kind, config2.CurrentRuleSetVersion
+	w.factory.pending, w.factory.next, w.factory.failAt = op.Defs, 0, -1
 
-	switch op.Kind {
+	if op.Kind == "refused" {
+		kind = op.Via
+
+		if op.Fail == "version" {
+			version = "1alpha3"
+		} else {
+			w.factory.failAt = op.FailAt
+		}
+	}
+
+	switch kind {
 	case "add":
-		err = w.repo.AddRuleSet(src, w.build(op.Src, op.Defs))
+		err = w.proc.OnCreated(w.ruleSet(op.Src, op.Defs, version))
 	case "upd":
-		err = w.repo.UpdateRuleSet(src, w.build(op.Src, op.Defs))
+		err = w.proc.OnUpdated(w.ruleSet(op.Src, op.Defs, version))
 	default:
-		err = w.repo.DeleteRuleSet(src)
+		err = w.proc.OnDeleted(w.ruleSet(op.Src, nil, version))
 	}
 
 	return c06ErrCode(err, false)
@@ -228,7 +303,12 @@ type c06Sets struct {
 }
 
 func (s *c06Sets) apply(op c06Op) {
-	switch op.Kind {
+	kind := op.Kind
+	if kind == "refused" { // the implementation let it through: it holds what it was given
+		kind = op.Via
+	}
+
+	switch kind {
 	case "add", "upd":
 		if _, ok := s.defs[op.Src]; !ok {
 			s.order = append(s.order, op.Src)
@@ -772,8 +852,19 @@ func c06GenRun(r *vf.Rand) (c06Case, c06Obs, []string) {
 			op = c06Op{Kind: "upd", Src: src, Defs: g.mutate(src, base)}
 		}
 
+		if op.Kind != "del" && len(op.Defs) > 0 && r.Intn(100) < 5 {
+			op.Via, op.Kind = op.Kind, "refused"
+			if r.Bool() {
+				op.Fail = "version"
+			} else {
+				op.Fail, op.FailAt = "factory", r.Intn(len(op.Defs))
+			}
+
+			g.tags["gen:refused-"+op.Fail] = true
+		}
+
 		ok := run.do(op)
-		if op.Kind != "del" {
+		if op.Kind != "del" && op.Kind != "refused" {
 			last[src] = op.Defs
 		}
 
@@ -994,6 +1085,8 @@ func c06Coq(c c06Case, o c06Obs) string {
 			return vf.CoqApp("A", fmt.Sprint(op.Src), vf.CoqListOf(op.Defs, c06CoqDef))
 		case "upd":
 			return vf.CoqApp("U", fmt.Sprint(op.Src), vf.CoqListOf(op.Defs, c06CoqDef))
+		case "refused":
+			return vf.CoqApp("R", fmt.Sprint(op.Src))
 		default:
 			return vf.CoqApp("D", fmt.Sprint(op.Src))
 		}
